@@ -35,6 +35,10 @@ class _Null:
     def __eq__(self, other: object) -> bool:
         return other is None or isinstance(other, (_Null, Null))
 
+    def __liquid__(self) -> None:
+        # Falsy, equal to nil and `null` when serialized, like nil.
+        return None
+
     def __str__(self) -> str:  # pragma: no cover
         return ""
 
